@@ -452,9 +452,12 @@ static int restore_size (char **str, int is_mapping) {
 
   while ((c = *cp))
     {
+      /* LPC strings hold any bytes (Latin-1 text, half a UTF-8 sequence): a byte that starts
+       * no character of the locale stands for itself.  save_variable() writes such strings,
+       * and the pre-scans of nested values never looked at the locale. */
       mb_span = mblen (cp, MB_CUR_MAX);
       if (mb_span < 0)
-                    return -1;
+                    mb_span = 1;
       cp += mb_span; /* don't check in the middle of a multibyte character */
       switch (c)
                     {
@@ -465,7 +468,7 @@ static int restore_size (char **str, int is_mapping) {
                       {
                               mb_span = mblen (cp, MB_CUR_MAX);
                               if (mb_span < 0)
-                                return -1;
+                                mb_span = 1;
                               cp += mb_span; /* don't check backslash in the middle of a multibyte character */
                               if ((c == '\0') || (c == '\\' && !*cp++))
                                 return 0;
